@@ -146,6 +146,56 @@ def gridVerdict (isCtor : Bool) : P String := do
 def ops : List (String × Op) := [
   ("ctor", gridVerdict true),
   ("call", gridVerdict false),
+  ("sappend", do
+      let n ← pNat
+      let st1 ← pStrand; let a1 ← pInt; let b1 ← pInt
+      let st2 ← pStrand; let a2 ← pInt; let b2 ← pInt
+      let d ← pBool; pArrow
+      let o ← (do
+        match (← tok) with
+        | "ok" => do
+            match (← tok) with
+            | "D" => do let l ← pNat; let k ← pBool; pure (AppendOut.data l k)
+            | "N" => do let l ← pNat; let k ← pBool; pure (AppendOut.unlocated l k)
+            | "L" => do
+                let l ← pNat; let st ← pStrand; let bs ← pList pIntPair; let k ← pBool
+                pure (AppendOut.located l st bs k)
+            | "illformed" => do let _ ← pRest; pure AppendOut.internal
+            | t => throw s!"append? {t}"
+        | "err" => do
+            let c ← tok
+            pure (if documented.contains c then AppendOut.refused else AppendOut.internal)
+        | "err!" => do let _ ← pRest; pure AppendOut.internal
+        | t => throw s!"ans? {t}" : P AppendOut)
+      pure (verdict (okAppend n st1 a1 b1 st2 a2 b2 d o)
+        (match o with
+         | .refused => "refused-valid-append"
+         | .internal => "internal"
+         | .located _ _ _ _ =>
+             if appendMustRefuse st1 a1 b1 st2 a2 b2 d then "illformed accepted-overlapping-or-misordered-pieces"
+             else "illformed appended-sequence"
+         | _ => "illformed appended-sequence"))),
+  ("pcons", do
+      let op ← tok
+      let ks ← pList pNat; pArrow
+      let a ← pRest
+      let pds := ks.filterMap (fun k => parentKinds[k]?)
+      if pds.length ≠ ks.length then throw "kind?"
+      let o : Option GridOut := match a with
+        | ["ok", "wf"] => some .okWf
+        | "ok" :: "illformed" :: _ => some .illformed
+        | ["err", c] => some (if documented.contains c then .refused else .internal)
+        | "err!" :: _ => some .internal
+        | _ => none
+      match o with
+      | none => throw "answer?"
+      | some o =>
+          pure (verdict (okPcons op pds o)
+            (match o with
+             | .okWf => "illformed accepted-mismatched-parents"
+             | .illformed => "illformed " ++ " ".intercalate (a.drop 2)
+             | .refused => "refused-valid-parents"
+             | .internal => "internal " ++ " ".intercalate (a.drop 1)))),
   ("mksingle", do
       let s ← pInt; let e ← pInt; let st ← pStrand; let n ← optOf natOf; pArrow
       let o ← pOut (do
